@@ -153,7 +153,26 @@ pub fn check(inj: &Injected, st: &mut Stats) -> Result<Option<usize>, String> {
         }
     }
     let _ = lx;
-    let (p, _) = imp::run_one(&inj.text)?;
+    let (p, v) = imp::run_one(&inj.text)?;
+    if v.ast.is_none() {
+        return Err("validate() returned no tree although the parse stage produced one".into());
+    }
+    let v_errors = v
+        .diagnostics
+        .iter()
+        .filter(|d| d.kind == DiagnosticKind::Error && d.range.start.offset >= inj.ext_start && d.range.end.offset <= inj.ext_end)
+        .count();
+    if v_errors == 0 {
+        return Err(format!(
+            "validate() reports no Error inside the malformed member's extent {}..{}; its diagnostics: {}",
+            inj.ext_start,
+            inj.ext_end,
+            v.diagnostics.iter().map(cmp::describe).collect::<Vec<_>>().join(" | ")
+        ));
+    }
+    if !imp::is_submultiset(&p.diagnostics, &v.diagnostics) {
+        return Err("a syntax diagnostic of the malformed member is missing from validate()'s result".into());
+    }
     let tree = p.ast.as_ref().ok_or_else(|| {
         format!(
             "no tree although the only malformed member ends at its terminator; diagnostics: {}",
